@@ -90,7 +90,7 @@ FactorSym(f, idx) ==
 -----------------------------------------------------------------------------
 (* the oracle *)
 
-Digit == <<"0", "1", "2", "3">>
+Digit == <<"0", "1", "2", "3", "4", "5", "6", "7">>
 
 ElimPlates(p) == {n \in p.elim : IsPlate(n)}
 SumVars(p) == {n \in p.elim : ~IsPlate(n)}
